@@ -23,16 +23,22 @@ RULE = ('test recording = n x c matrix with entry (r, j) = r*c + j in the sample
         '(n_channels 0, empty file, offset beyond the file, sample_rate 0). Round 2: for c <= 4 channels EVERY permutation of the channels '
         'and EVERY index list of <= 3 channels (repeats, any order; 164 selectors) as list and as ndarray, some also counted from the end, the row '
         'index / layout taken in rotation over every item of n <= 4; the random stream also on 5-8 channels with permutations of all channels / '
-        'of a run of channels and index lists with repeats. Non-trivial = the recording has >= 2 parts or a column selector is present; '
+        'of a run of channels and index lists with repeats. Round 3: flat files whose samples are stored in the NON-native byte order '
+        '(int16 / uint16 / int32 / int64 / float32 / float64; dtype keyword as np.dtype instance and as string) and in the native order in '
+        'every spelling of the keyword (instance, \'<i2\', \'int16\', np.int16), through get_ephys_reader and through FlatEphysReader '
+        'directly, layout / item / selector / offset in rotation, also in the sampled configurations and the random stream; reader attributes '
+        'with the last file exactly 1, 2, 3 chunks of round(600 s * rate) samples long and one sample more / less (rates 0.01 / 0.005 / '
+        '0.02 Hz) after 0-2 other files, on flat / array / .npy. Non-trivial = the recording has >= 2 parts or a column selector is present; '
         'distinct = distinct abstract input + configuration.')
 EXHAUSTIVE = {'quick': True, 'thorough': True}
 CLAUSES = {
     1: 'observed output differs from the Coq model PV.C01.Model (getitem / part_bounds / memmap_rows)',
     21: 'C01_slice / C01_int / C01_list / C01_cols: reader[item(, cols)] is not what NumPy returns on the '
         'concatenated recording (rows first, then columns; an integer gives a 1 x c block)',
-    22: 'dtype of the returned block differs from the sample dtype',
+    22: 'dtype of the returned block differs from the sample dtype (in the native byte order, as np.vstack / np.concatenate '
+        'of the files answer)',
     23: 'C01_bounds / C01_memmap_rows: shape / n_samples / n_channels are not those of the concatenated array',
-    24: 'reader.dtype differs from the sample dtype',
+    24: 'reader.dtype differs from the sample dtype (byte order included)',
     25: 'duration differs from n_samples / sample_rate',
     26: 'C01_duration: duration is not within one binary64 rounding of the rational n_samples / sample_rate',
 }
@@ -49,13 +55,22 @@ ASSUMES = ['integers in [-n, n); slices with step None/1 and bounds in {None} u 
 TIMEOUT = {'quick': 20, 'thorough': 60}
 COQ_HEADER = 'From Coq Require Import Floats.\n'
 
-DT = {'uint8': 0, 'int16': 1, 'int32': 2, 'int64': 3, 'float32': 4, 'float64': 5}
-DTMAX = {'uint8': 255, 'int16': 32767, 'int32': 2 ** 31 - 1, 'int64': 2 ** 62, 'float32': 2 ** 24, 'float64': 2 ** 53}
-ITEMSIZE = {'uint8': 1, 'int16': 2, 'int32': 4, 'int64': 8, 'float32': 4, 'float64': 8}
+DT = {'uint8': 0, 'int16': 1, 'int32': 2, 'int64': 3, 'float32': 4, 'float64': 5, 'uint16': 6}
+DTMAX = {'uint8': 255, 'int16': 32767, 'int32': 2 ** 31 - 1, 'int64': 2 ** 62, 'float32': 2 ** 24, 'float64': 2 ** 53,
+         'uint16': 65535}
+ITEMSIZE = {'uint8': 1, 'int16': 2, 'int32': 4, 'int64': 8, 'float32': 4, 'float64': 8, 'uint16': 2}
+# dtype tag = DT code of the sample type (+ BO_SWAPPED when its byte order is not the machine's).  A block the reader
+# returns went through np.vstack, which -- like np.concatenate of the files itself -- answers in the NATIVE byte order:
+# its expected tag is the plain DT code; reader.dtype is the sample dtype as stored, byte order included.
+BO_SWAPPED = 16
 DEFCFG = {'backend': 'flat', 'dtype': 'int16', 'offset': 0, 'junk': 0, 'as': 'list', 'rate': 3.0, 'd': 2,
           'ext': '.bin'}
 # optional keys (absent = False / none): 'used' (reader already queried), 'tuple1' (reader[(item,)]), 'aslist' (.npy / .cbin
-# given as [path]), 'extra' (.cbin: lengths of further files passed after the first; phylib reads the first only)
+# given as [path]), 'extra' (.cbin: lengths of further files passed after the first; phylib reads the first only);
+# flat files only: 'bo' = 'swap' (the samples are stored in the NON-native byte order, '>i2' on a little-endian host),
+# 'dtform' (how the dtype keyword is given: absent = np.dtype instance, 'str' = dtype.str e.g. '>i2' / '<i2', 'name' =
+# 'int16' as params.py has it, 'type' = the scalar type np.int16; the last two cannot express a byte order),
+# 'direct' (FlatEphysReader(paths, ...) instead of get_ephys_reader(paths, ...))
 EXN = {'IndexError': 1, 'ValueError': 2, 'AssertionError': 3, 'ZeroDivisionError': 4, 'NotImplementedError': 5, 'TypeError': 6}
 
 
@@ -148,6 +163,12 @@ def _layout_ok(sizes, c, cfg, allow_empty=False):
     if cfg.get('extra') and cfg['backend'] != 'cbin':
         return False
     if cfg.get('aslist') and cfg['backend'] not in ('npy', 'cbin'):
+        return False
+    if (cfg.get('bo') or cfg.get('dtform') or cfg.get('direct')) and cfg['backend'] != 'flat':
+        return False
+    if cfg.get('bo') not in (None, 'swap') or cfg.get('dtform') not in (None, 'str', 'name', 'type'):
+        return False
+    if cfg.get('bo') and (ITEMSIZE[cfg['dtype']] == 1 or cfg.get('dtform') in ('name', 'type')):
         return False
     return True
 
@@ -325,6 +346,26 @@ CORPUS = [
     _dispatch('tuple', 0), _dispatch('tuple', 1), _dispatch('tuple', 2), _dispatch('tuple', 3), _dispatch('tuple', 4),
     # a list of two / three .npy paths: ValueError (line 420)
     _dispatch('npy', 1), _dispatch('npy', 2), _dispatch('npy', 3),
+    # ---- round-3 seed C01-m7: flat files whose samples are stored in the NON-native byte order ('>i2', '>u2', '>i4', '>f4' on a
+    # little-endian host), the dtype given as an np.dtype instance / as its string, through get_ephys_reader / FlatEphysReader
+    # (a dispatch that "normalises" the keyword with np.dtype(x).type memmaps the native type: every value byte-swapped)
+    _get([1, 3, 2], 3, ['slice', 1, 5, None], None, bo='swap'), _get([1, 3, 2], 3, ['int', 4], ['list', [2, 0]], bo='swap', dtform='str'),
+    _get([2, 3], 2, ['list', [1, 2]], None, dtype='float32', offset=7, bo='swap', direct=True),
+    _get([4], 2, ['slice', None, None, None], ['list', [1, 0]], dtype='uint16', bo='swap', dtform='str', direct=True),
+    _get([2, 2], 2, ['slice', -3, None, None], ['slice', None, None, -1], dtype='int32', offset=1, junk=3, bo='swap', dtform='str'),
+    _get([3], 1, ['int', -1], None, dtype='float64', bo='swap'), _get([1, 2], 2, ['list', [0, 2]], None, dtype='int64', bo='swap', **{'as': 'array'}),
+    _attrs([1, 3, 2], 3, bo='swap'), _attrs([2, 3], 2, dtype='int32', bo='swap', dtform='str'),
+    _attrs([5], 2, dtype='uint16', bo='swap', direct=True), _attrs([2, 3], 2, dtype='float32', offset=7, bo='swap', dtform='str', direct=True),
+    # the native byte order in every spelling of the keyword
+    _get([1, 3, 2], 3, ['slice', 1, 5, None], None, dtform='type'), _get([1, 3, 2], 3, ['slice', 1, 5, None], None, dtform='name'),
+    _get([1, 3, 2], 3, ['slice', 1, 5, None], None, dtform='str'), _get([1, 3, 2], 3, ['int', 3], None, dtype='uint16', direct=True),
+    _attrs([1, 3, 2], 3, dtform='type'), _attrs([1, 3, 2], 3, dtform='name', direct=True), _attrs([1, 3, 2], 3, dtype='float32', dtform='str'),
+    # ---- round-3 seed C01-m8: the last (or only) file holds a whole number of chunks of round(600 s * sample_rate) samples
+    # (rate 0.01 Hz: 6 samples; 0.005 Hz: 3): the end of the recording must still be the last chunk bound
+    _attrs([6], 2, rate=0.01), _attrs([12], 2, rate=0.01), _attrs([18], 1, rate=0.01), _attrs([5], 2, rate=0.01), _attrs([7], 2, rate=0.01),
+    _attrs([3, 6], 2, rate=0.01), _attrs([6, 6], 2, rate=0.01), _attrs([6, 5], 2, rate=0.01), _attrs([2, 6, 12], 2, rate=0.01),
+    _attrs([6], 2, backend='array', rate=0.01), _attrs([12], 2, backend='npy', rate=0.01), _attrs([3], 2, backend='array', rate=0.005),
+    _attrs([6], 2, backend='npy', rate=0.005, aslist=True),
 ]
 
 
@@ -386,6 +427,21 @@ def _col_selector_cases(cmax=4):
     return cases
 
 
+def _rand_dtype_arg(rng, cfg):
+    """round 3: a flat configuration in three is read with the samples in the non-native byte order and / or another spelling
+    of the dtype keyword and / or through FlatEphysReader directly"""
+    if cfg['backend'] != 'flat' or rng.random() < 0.65:
+        return
+    if ITEMSIZE[cfg['dtype']] > 1 and rng.random() < 0.6:
+        cfg['bo'] = 'swap'
+        if rng.random() < 0.5:
+            cfg['dtform'] = 'str'
+    else:
+        cfg['dtform'] = rng.choice(['str', 'name', 'type'])
+    if rng.random() < 0.4:
+        cfg['direct'] = True
+
+
 def _config_sample(base, rng, count):
     """the same abstract cases on the other backends / dtypes / offsets"""
     out = []
@@ -399,6 +455,9 @@ def _config_sample(base, rng, count):
                        offset=rng.choice([0, 1, 7, 64]), junk=rng.choice([0, 0, 1, 3]),
                        ext=rng.choice(['.bin', '.dat', '.raw']), rate=rng.choice([1.0, 2.5, 30000.0, 7.0]))
             cfg['as'] = i['cfg']['as']
+            if rng.random() < 0.15:
+                cfg['dtype'] = 'uint16'
+            _rand_dtype_arg(rng, cfg)
             nc = _norm({'kind': 'get', 'inp': dict(i, cfg=cfg)})
         else:
             n = sum(i['sizes'])
@@ -503,6 +562,7 @@ def _random(rng, count, nmax):
             cfg['dtype'] = rng.choice(['int16', 'int32'])
             if n / cfg['d'] > 200:
                 cfg['d'] = 100
+        _rand_dtype_arg(rng, cfg)
         case = _get(sizes, c, it, cols, **cfg)
         if valid_case(case):
             out.append(case)
@@ -524,6 +584,62 @@ def _attr_cases(nmax, rng):
                 out.append(_attrs(sizes, c, backend='npy', dtype='int32', rate=2.5))
                 if n >= 2:
                     out.append(_attrs(sizes, c, backend='cbin', dtype='int16', d=1 + n % 3))
+    return [c for c in out if valid_case(c)]
+
+
+def _byteorder_cases(quick):
+    """round-3 seed C01-m7: every multi-byte sample type in the non-native byte order (dtype keyword as np.dtype instance and
+    as string) and in the native one in every spelling (instance, '<i2', 'int16', np.int16), through get_ephys_reader and through
+    FlatEphysReader directly; the layout / row index (every composition x every item of n <= 4), the column selector, the
+    header offset and the trailing bytes are taken in rotation; reader attributes for each configuration"""
+    rows = [(sizes, it) for n in (3, 4, 2, 1) for sizes in compositions(n) for it in items_for(n)]
+    cases = []
+    k = 0
+    per = 6 if quick else 40
+    for dtype in ('int16', 'uint16', 'int32', 'float32', 'int64', 'float64'):
+        for bo, dtform in (('swap', None), ('swap', 'str'), (None, 'str'), (None, 'name'), (None, 'type'), (None, None)):
+            for direct in (False, True):
+                cfg = dict(dtype=dtype)
+                if bo:
+                    cfg['bo'] = bo
+                if dtform:
+                    cfg['dtform'] = dtform
+                if direct:
+                    cfg['direct'] = True
+                for _ in range(per if bo else max(2, per // 3)):
+                    k += 1
+                    sizes, it = rows[(11 * k) % len(rows)]
+                    c = 1 + k % 4
+                    cols = cols_for(c)[k % 5] if k % 3 else None
+                    case = _get(sizes, c, it, cols, offset=[0, 1, 7, 64][k % 4], junk=[0, 0, 1, 3][(k // 4) % 4],
+                                ext=['.bin', '.dat', '.raw'][k % 3], **dict(cfg, **{'as': ('list', 'array')[k % 2]}))
+                    if valid_case(case):
+                        cases.append(case)
+                k += 1
+                sizes, _ = rows[(11 * k) % len(rows)]
+                cases.append(_attrs(sizes, 1 + k % 3, offset=[0, 7][k % 2], rate=[3.0, 2.5, 30000.0][k % 3], **cfg))
+    return [c for c in cases if valid_case(c)]
+
+
+def _chunk_multiple_cases():
+    """round-3 seed C01-m8: reader attributes when the LAST file holds exactly 1, 2, 3 chunks of cs = round(600 s * rate)
+    samples, and one sample more / less (rates 0.01, 0.005, 0.02 Hz: cs = 6, 3, 12), after 0, 1, 2 other files whose lengths
+    are below / at / above a whole chunk; flat (several files), in-memory array and .npy (one part)"""
+    out = []
+    k = 0
+    for rate in (0.01, 0.005, 0.02):
+        cs = int(round(600.0 * rate))
+        for m in (1, 2, 3):
+            for last in (m * cs - 1, m * cs, m * cs + 1):
+                for head in ([], [1], [cs], [cs + 1], [2 * cs], [2, cs], [cs, cs - 1]):
+                    k += 1
+                    c = 1 + k % 3
+                    out.append(_attrs(head + [last], c, rate=rate, dtype=['int16', 'int32', 'float32'][k % 3],
+                                      offset=[0, 1, 7][k % 3] if head or k % 2 else 0))
+                    if head and k % 3 == 0:
+                        out.append(_attrs(head + [last], c, rate=rate, direct=True))
+                out.append(_attrs([last], 1 + m % 2, backend='array', rate=rate))
+                out.append(_attrs([last], 1 + m % 2, backend='npy', rate=rate, dtype='int32'))
     return [c for c in out if valid_case(c)]
 
 
@@ -638,6 +754,8 @@ def generate(tier, rng):
     cases += _attr_cases(6 if quick else 9, rng)
     cases += _config_sample(base, rng, 900 if quick else 10000)
     cases += _col_selector_cases(4)
+    cases += _byteorder_cases(quick)
+    cases += _chunk_multiple_cases()
     cases += _random(rng, 400 if quick else 4000, 2000)
     cases += _zero_part_cases(3 if quick else 4)
     cases += _sub_cases(4 if quick else 5)
@@ -684,7 +802,8 @@ def _cleanup(prefix):
 def _dtcode(dt):
     import numpy as np
     try:
-        return DT.get(str(np.dtype(dt)), 99)
+        d = np.dtype(dt)
+        return DT[d.name] + (0 if d.isnative else BO_SWAPPED)
     except Exception:
         return 99
 
@@ -698,9 +817,12 @@ def make_reader(d, sizes, c, cfg):
     """Materialise the abstract recording; returns (reader, closer, info)."""
     import numpy as np
     from pathlib import Path
-    from phylib.io.traces import get_ephys_reader
+    from phylib.io.traces import get_ephys_reader, FlatEphysReader
     n = sum(sizes)
     dtype = np.dtype(cfg['dtype'])
+    if cfg.get('bo'):
+        dtype = dtype.newbyteorder('S')       # the files hold the samples in the non-native byte order
+        assert not dtype.isnative
     A = matrix(n, c, dtype)
     be = cfg['backend']
     rate = cfg['rate']
@@ -719,7 +841,10 @@ def make_reader(d, sizes, c, cfg):
             paths.append(p)
         info['fsizes'] = [os.path.getsize(p) for p in paths]
         arg = paths if (len(paths) > 1 or cfg['offset'] % 2 == 0) else paths[0]
-        r = get_ephys_reader(arg, sample_rate=rate, dtype=dtype, n_channels=c, offset=cfg['offset'])
+        darg = {None: dtype, 'str': dtype.str, 'name': dtype.name, 'type': dtype.type}[cfg.get('dtform')]
+        assert np.dtype(darg) == dtype
+        make = FlatEphysReader if cfg.get('direct') else get_ephys_reader
+        r = make(arg, sample_rate=rate, dtype=darg, n_channels=c, offset=cfg['offset'])
         return r, (lambda: None), info
     if be == 'array':
         return get_ephys_reader(A, sample_rate=rate), (lambda: None), info
@@ -972,7 +1097,9 @@ def encode(case, obs):
         else:
             cobs = 'ObsOther'
         return cin, cobs
-    # attrs
+    # attrs: reader.dtype is the sample dtype as stored, byte order included
+    if cfg.get('bo'):
+        dt += BO_SWAPPED
     if obs[0] != 'attrs':
         rate = 10.0 if cfg['backend'] == 'cbin' else float(cfg['rate'])
         cin = q.app('InAttrs', q.zl(i['sizes']), q.z(i['c']), q.z(dt), q.z(int(round(600.0 * rate))), _flt(rate.hex()),
@@ -1020,6 +1147,13 @@ def dist(case, obs):
     if cfg['backend'] == 'flat':
         out.append('flat.offset=%d' % cfg['offset'])
         out.append('flat.trailing_bytes=%s' % (cfg['junk'] > 0))
+        out.append('flat.byteorder=%s' % ('non-native' if cfg.get('bo') else 'native'))
+        out.append('flat.dtype_arg=%s' % {None: 'np.dtype', 'str': 'str-code', 'name': 'str-name', 'type': 'scalar-type'}[cfg.get('dtform')])
+        out.append('flat.via=%s' % ('FlatEphysReader' if cfg.get('direct') else 'get_ephys_reader'))
+    if k == 'attrs':
+        rate = 10.0 if cfg['backend'] == 'cbin' else float(cfg['rate'])
+        cs, last = int(round(600.0 * rate)), i['sizes'][-1]
+        out.append('attrs.last_file_vs_chunk=%s' % ('below' if last < cs else 'whole-chunks' if last % cs == 0 else 'above'))
     if cfg.get('aslist') or cfg.get('extra'):
         out.append('paths=list-of-%d' % (1 + len(cfg.get('extra') or [])))
     if obs[0] == 'crash':
@@ -1095,7 +1229,7 @@ def shrink(case):
             c2 = dict(cfg)
             c2[key] = DEFCFG[key]
             cands.append(mk(cfg=c2))
-    for key in ('used', 'tuple1', 'aslist'):
+    for key in ('used', 'tuple1', 'aslist', 'bo', 'dtform', 'direct'):
         if cfg.get(key):
             c2 = dict(cfg)
             del c2[key]
